@@ -580,6 +580,14 @@ class Enum:
                 return res
             res = []
             sd = desc(e["e"])
+            # a two-armed match on one variant and its complement (`match r { Err(e) => A, Ok(..) => B }`, `match o { Some(x) => A, None => B }`,
+            # `match v { V(..) => A, _ => B }`) is the same test as `if let V(..) = x { A } else { B }`: it gets the if-let event as well
+            twoway = None
+            if e.get("src") == "Normal" and len(e["arms"]) == 2 and not any(a.get("g") for a in e["arms"]):
+                v0 = thir.pattern_variants(e["arms"][0]["p"])
+                v1 = thir.pattern_variants(e["arms"][1]["p"])
+                if len(v0) == 1 and v0[0] != "_" and (v1 == ["_"] or (len(v1) == 1 and {v0[0], v1[0]} in ({"Ok", "Err"}, {"Some", "None"}))):
+                    twoway = tuple(v0)
             for p in self.paths(e["e"]):
                 if p.out != "val":
                     res.append(p)
@@ -588,15 +596,23 @@ class Enum:
                     gl = thir.peel(arm["g"]) if isinstance(arm.get("g"), dict) else None
                     if isinstance(gl, dict) and gl.get("k") == "lit" and gl.get("b") is False:
                         continue  # `if cfg!(other_platform)` guard: the arm cannot be taken
-                    head = p.then(P([("arm", sd, (thir.pat_str(arm["p"]),), i, Ref(arm))]))
+                    pre = [("iflet", sd, twoway, i == 0, Ref(e), "match")] if twoway is not None else []
+                    head = p.then(P(pre + [("arm", sd, (thir.pat_str(arm["p"]),), i, Ref(arm))]))
                     ab = thir.peel(arm["b"])
                     lit_bool = ab.get("b") if isinstance(ab, dict) and ab.get("k") == "lit" and "b" in ab else None
+                    simple_body = isinstance(ab, dict) and ab.get("k") in ("adt", "call", "var", "upvar", "lit", "field", "tuple", "fn", "const", "bin", "un")
                     for g in self.paths(arm.get("g")):
+                        gev = g.ev
+                        if isinstance(gl, dict) and g.out == "val" and not (gl.get("k") == "lit"):
+                            core, neg = split_not(desc(arm["g"]))
+                            gev = gev + (("branch", core, True != neg, Ref(arm)),)      # the arm is entered only with its guard true
                         for q in self.paths(arm["b"]):
                             val = q.val
                             if q.out == "val" and lit_bool is not None:
                                 val = lit_bool
-                            res.append(P(head.ev + g.ev + q.ev, q.out, val))
+                            elif q.out == "val" and val is None and simple_body:
+                                val = desc(ab)
+                            res.append(P(head.ev + gev + q.ev, q.out, val))
             if len(res) > self.max_paths:
                 raise Limit()
             return res
